@@ -70,7 +70,8 @@ def valid(q):
 COMPS = ['a', 'b', 'c', 'A', 'a1', '_x']
 _comp = st.sampled_from(COMPS[:3]) | st.sampled_from(COMPS)
 _name = st.lists(_comp, min_size=1, max_size=4).map('.'.join)
-_bad = st.sampled_from(['', '.', 'a.', '.a', 'a..b', 'a b', '1a', 'a/b', 'a.b.', '-', 'a.1'])
+_bad = st.sampled_from(['', '.', 'a.', '.a', 'a..b', 'a b', '1a', 'a/b', 'a.b.', '-', 'a.1', '$', '$.a',
+                        '$.a.b', 'a.$', '$.b.a', '$.c'])
 _idx = st.integers(0, 7)
 
 
